@@ -43,6 +43,12 @@ pub fn mk_stream(ver: Ver, pkts: Vec<Pkt>) -> Stream {
 
 /// Run one fragmentation through a fresh library decoder and compare with the reference.
 pub fn drive(s: &Stream, cuts: &[usize], min_chunk: u32, out: &mut Vec<Finding>) {
+    crate::check::b_enter("Codec::decode (packet stream)", &s.bytes);
+    drive_inner(s, cuts, min_chunk, out);
+    crate::check::b_leave();
+}
+
+fn drive_inner(s: &Stream, cuts: &[usize], min_chunk: u32, out: &mut Vec<Finding>) {
     let l5;
     let l3;
     let lib: &dyn LibCodec = if s.ver == Ver::V5 {
